@@ -76,9 +76,26 @@ def lean_sources() -> list[str]:
     return sorted(res)
 
 
-def forbidden_tokens() -> list[str]:
+def lean_closure(prop_id: str) -> list[str]:
+    """Source files of this project that Props/<id>.lean and Driver/<id>.lean import, transitively."""
+    todo = [f'QtVerif.Props.{prop_id}', f'Driver.{prop_id}']
+    seen: dict[str, str] = {}
+    while todo:
+        mod = todo.pop()
+        if mod in seen:
+            continue
+        path = os.path.join(LEAN, *mod.split('.')) + '.lean'
+        if not os.path.exists(path):
+            continue
+        seen[mod] = path
+        for m in re.finditer(r'^\s*(?:public\s+)?import\s+((?:QtVerif|Driver)\.\S+)', open(path, encoding='utf-8').read(), re.M):
+            todo.append(m.group(1))
+    return sorted(seen.values())
+
+
+def forbidden_tokens(prop_id: str | None = None) -> list[str]:
     hits = []
-    for p in lean_sources():
+    for p in (lean_closure(prop_id) if prop_id else lean_sources()):
         text = _strip_lean_comments(open(p, encoding='utf-8').read())
         for m in FORBIDDEN.finditer(text):
             line = text.count('\n', 0, m.start()) + 1
@@ -126,7 +143,8 @@ def proof_gate(prop_id: str, tier: str) -> dict:
         res['ok'] = False
         res['problems'].append('lake build failed: ' + (r.stdout + r.stderr)[-2000:])
         return res
-    hits = forbidden_tokens()
+    hits = forbidden_tokens(prop_id)
+    res['sources'] = [os.path.relpath(p, LEAN) for p in lean_closure(prop_id)]
     if hits:
         res['ok'] = False
         res['problems'].append('forbidden tokens: ' + '; '.join(hits))
